@@ -120,15 +120,17 @@ def c_dcm_matrix(c):
 
 
 @contract('C11', 'DCM.reject', variants=[dict(kind='reflection'), dict(kind='scaled'), dict(kind='shear'),
-                                        dict(kind='Quaternion(dcm=)')],
+                                        dict(kind='Quaternion(dcm=)'), dict(kind='reflection-stack')],
           functions=['dcm._assert_SO3', 'DCM.__new__', 'Quaternion.from_DCM'])
 def c_dcm_reject(c):
     """reflections, scaled (|s-1| > 1e-4) and sheared (|e| > 1e-4) matrices raise ValueError, never wrapped"""
     q = c.unit_quat('q')
     R = mat_of_quat(q)
     k = c.p['kind']
-    if k == 'reflection' or k == 'Quaternion(dcm=)':
+    if k in ('reflection', 'Quaternion(dcm=)', 'reflection-stack'):
         B = R @ c.arr(np.diag([1.0, 1.0, -1.0]))
+        if k == 'reflection-stack':
+            B = np.array([R, B])          # one reflection among proper rotations, as an (N,3,3) stack
     elif k == 'scaled':
         s = c.real('s')
         c.assume(Or(gt(s, 1 + 1e-4), lt(s, 1 - 1e-4)))
